@@ -37,7 +37,8 @@ Check(r, idx) ==
         callSeq(g) == IF {c \in calls : c.g = g} = {} THEN 0 ELSE (CHOOSE c \in calls : c.g = g).seq
         \* a removal of key k became visible in (lo, hi): an atomic deletion event, or an explicit write call overlapping it
         touched(k, lo, hi) == \/ \E a \in aevs : a.k = k /\ a.seq > lo /\ a.seq < hi
-                              \/ \E w \in wcalls : /\ w.seq < hi /\ (\A x \in wrets : x.g = w.g => x.seq > lo)
+                              \/ \E w \in wcalls : /\ IsWrite(w.op)      \* (a computation that cancelled itself, a clock advance are not writes)
+                                                    /\ w.seq < hi /\ (\A x \in wrets : x.g = w.g => x.seq > lo)
                                                     \* a SetIfAbsent that found the key present wrote nothing
                                                     /\ ~\E x \in wrets : x.g = w.g /\ x.op = "setifabsent-noop"
         \* C08 NoOverlap: two loader runs for one key overlap only if the key was written/invalidated/evicted in between
@@ -76,7 +77,7 @@ Check(r, idx) ==
                         /\ w.k = 1
                         /\ w.op \in {"set", "compute"}
                         /\ (\E x \in nfRuns : enterSeq(x) < w.seq /\ wretSeq(w) < installSeq(x))
-                        /\ (~\E w2 \in wcalls : w2.seq > w.seq)
+                        /\ (~\E w2 \in wcalls : w2.seq > w.seq /\ IsWrite(w2.op))
                         /\ (~\E a \in aevs : a.k = 1 /\ a.seq > w.seq /\ a.err \in {"Overflow", "Expiration"})
                         /\ fin(1) # {w.v}}
         \* F17: an explicit invalidation whose removal was published (its atomic handler returned, record "hret") after the
